@@ -414,6 +414,100 @@ func TestHTTPUpgraderModel(t *testing.T) {
 }
 
 // ---------------------------------------------------------------------------
+// package-level entry points: ws.Upgrade and ws.UpgradeHTTP use the exported
+// ws.DefaultUpgrader / ws.DefaultHTTPUpgrader ("DefaultUpgrader is an Upgrader
+// ... used by Upgrade function"). A generated configuration assigned to the
+// default must behave exactly as through the method, and satisfy the model.
+// The tests of this package run sequentially (no t.Parallel), the previous
+// default is restored after every case.
+
+func sameOutcome(a, b outcome) string {
+	switch {
+	case (a.err == nil) != (b.err == nil):
+		return fmt.Sprintf("method err=%v, package-level function err=%v", a.err, b.err)
+	case a.err != nil && a.err.Error() != b.err.Error():
+		return fmt.Sprintf("method err=%q, package-level function err=%q", a.err, b.err)
+	case !bytes.Equal(a.out, b.out):
+		return fmt.Sprintf("bytes written differ:\nmethod:   %q\nfunction: %q", a.out, b.out)
+	case a.hs.Protocol != b.hs.Protocol:
+		return fmt.Sprintf("method protocol %q, function protocol %q", a.hs.Protocol, b.hs.Protocol)
+	case fmt.Sprint(reqgen.FromLibrary(a.hs.Extensions)) != fmt.Sprint(reqgen.FromLibrary(b.hs.Extensions)):
+		return fmt.Sprintf("method extensions %v, function extensions %v", reqgen.FromLibrary(a.hs.Extensions), reqgen.FromLibrary(b.hs.Extensions))
+	}
+	return ""
+}
+
+func viaDefaultUpgrader(u ws.Upgrader, raw []byte, tr transport) outcome {
+	old := ws.DefaultUpgrader
+	defer func() { ws.DefaultUpgrader = old }()
+	ws.DefaultUpgrader = u
+	src := tx.NewSrc(raw, tr.Chunks)
+	src.EOFWithData = tr.EOFWithData
+	rec := tx.NewRec()
+	hs, err := ws.Upgrade(tx.RW{Reader: src, Writer: rec})
+	return outcome{err, rec.Bytes(), hs}
+}
+
+func viaDefaultHTTPUpgrader(u ws.HTTPUpgrader, raw []byte, wsize int) (outcome, bool) {
+	old := ws.DefaultHTTPUpgrader
+	defer func() { ws.DefaultHTTPUpgrader = old }()
+	ws.DefaultHTTPUpgrader = u
+	r, err := http.ReadRequest(bufio.NewReader(bytes.NewReader(raw)))
+	if err != nil {
+		return outcome{}, false
+	}
+	rec := tx.NewRec()
+	w := tx.NewHijackable(nil, rec, wsize)
+	_, _, hs, err := ws.UpgradeHTTP(r, w)
+	return outcome{err, rec.Bytes(), hs}, true
+}
+
+func TestDefaultEntryPoints(t *testing.T) {
+	hx.Check(t, 6, func(t *rapid.T) {
+		kind := reqgen.Raw
+		if rapid.Bool().Draw(t, "http") {
+			kind = reqgen.HTTP
+		}
+		plan := reqgen.GenPlan(t, "plan", kind)
+		req := reqgen.GenRequest(t, "req", plan)
+		cfg := reqgen.GenConfig(t, "cfg", kind, plan)
+		tr := transport{Chunks: gen.Chunks(t, "chunks")}
+		raw := req.Render()
+		v := reqgen.Classify(req, cfg)
+		hx.Eval()
+		var viaMethod, viaFunc outcome
+		var built *reqgen.Built
+		if kind == reqgen.Raw {
+			u1, _ := cfg.Upgrader()
+			viaMethod = runRaw(u1, raw, tr)
+			var u2 ws.Upgrader
+			u2, built = cfg.Upgrader()
+			viaFunc = viaDefaultUpgrader(u2, raw, tr)
+		} else {
+			u1, _ := cfg.HTTPUpgrader()
+			var ok bool
+			if viaMethod, ok = runHTTP(u1, raw, cfg.WriteBuf); !ok {
+				hx.Class("default/http/refused-by-net/http")
+				return
+			}
+			var u2 ws.HTTPUpgrader
+			u2, built = cfg.HTTPUpgrader()
+			viaFunc, _ = viaDefaultHTTPUpgrader(u2, raw, cfg.WriteBuf)
+		}
+		hx.Class("default/" + kind.String() + "/" + v.Kind.String())
+		if msg := judge(cfg, &v, built, viaFunc); msg != "" {
+			t.Fatalf("%s", failText(req, cfg, &v, tr, viaFunc, "through the package-level function with the configuration assigned to the default upgrader: "+msg))
+		}
+		if v.UnicodeFoldUpgrade && hx.Known(sigUnicodeFold) {
+			return
+		}
+		if msg := sameOutcome(viaMethod, viaFunc); msg != "" {
+			t.Fatalf("%s", failText(req, cfg, &v, tr, viaFunc, "configured default upgrader behaves differently through the package-level function: "+msg))
+		}
+	})
+}
+
+// ---------------------------------------------------------------------------
 // deterministic grid: every required header x every state x every spelling,
 // every method x every version form, through the package-level entry points
 // ws.Upgrade and ws.UpgradeHTTP (zero configuration).
@@ -605,9 +699,11 @@ func TestExtensionLineGrid(t *testing.T) {
 		"ext-rej":  {Act: reqgen.ExtReject, Status: 403, Reason: "extension forbidden", Headers: []reqgen.HeaderKV{{Name: "X-Reject-Why", Value: "a"}}},
 		"ext-rej0": {Act: reqgen.ExtReject, Status: 0, Reason: "rejected without a status", Headers: []reqgen.HeaderKV{{Name: "X-Reject-Why", Value: "b c"}, {Name: "X-Rej-B", Value: "120"}}},
 		"ext-rej1": {Act: reqgen.ExtReject, Status: 0},
+		"ext-pct":  {Act: reqgen.ExtReject, Status: 404, Reason: "no %2Fadmin for you, 100% denied %zz %"},
+		"ext-fmt":  {Act: reqgen.ExtPlainError, Reason: "%s%s%s %d %!"},
 	}
 	values := []string{"ext-acc; p=1", "ext-bare; q", "ext-dec", "ext-unknown; p", "ext-err", "ext-rej; p=1", "ext-rej0", "ext-rej1",
-		"ext-acc, ext-err", "ext-rej, ext-acc", "ext-acc; =1", "ext-acc; p=\"1\"", ""}
+		"ext-acc, ext-err", "ext-rej, ext-acc", "ext-pct", "ext-fmt", "ext-acc; =1", "ext-acc; p=\"1\"", ""}
 	n := 0
 	var walk func(kind reqgen.Kind, mode reqgen.ExtMode, lines []string, depth int) bool
 	walk = func(kind reqgen.Kind, mode reqgen.ExtMode, lines []string, depth int) bool {
@@ -672,11 +768,14 @@ func TestExtensionLineGrid(t *testing.T) {
 func TestRejectionWithoutStatus(t *testing.T) {
 	n := 0
 	hdrs := [][]reqgen.HeaderKV{nil, {{Name: "X-Reject-Why", Value: "a"}}, {{Name: "X-Reject-Why", Value: "a"}, {Name: "Retry-After", Value: "120"}}}
-	for _, reason := range []string{"", "no", "a longer reason text for the body"} {
+	for _, reason := range append([]string{"", "no", "a longer reason text for the body"}, reqgen.HostileReasons...) {
 		for _, h := range hdrs {
-			for _, st := range []int{0, 401, 503} {
+			for _, st := range []int{0, 401, 503, -1} {
 				for cb := 0; cb < 4; cb++ {
 					out := reqgen.Outcome{Kind: reqgen.CbReject, Status: st, Reason: reason, Headers: h}
+					if st < 0 { // plain error with the same text
+						out = reqgen.Outcome{Kind: reqgen.CbError, Reason: reason}
+					}
 					cfg := &reqgen.Config{Kind: reqgen.Raw, HeaderForm: reqgen.HeaderString, Header: []reqgen.HeaderKV{{Name: "X-Srv-A", Value: "a"}}}
 					switch cb {
 					case 0:
@@ -707,7 +806,7 @@ func TestRejectionWithoutStatus(t *testing.T) {
 			}
 		}
 	}
-	hx.Part("callback x rejection {no status, 401, 503} x reason x rejection headers (ws.Upgrader)", int64(n), true)
+	hx.Part("callback x {rejection without status, 401, 503, plain error} x reason (plain and format/framing-hostile texts) x rejection headers (ws.Upgrader)", int64(n), true)
 }
 
 // TestModelTables pins the model's reading of the spelling tables, so that a
@@ -848,6 +947,39 @@ func asciiFoldEq(a, b string) bool {
 	return true
 }
 
+func hasControlByte(data []byte) bool {
+	for _, c := range data {
+		if (c < 0x20 && c != '\r' && c != '\n' && c != '\t') || c == 0x7f {
+			return true
+		}
+	}
+	return false
+}
+
+// lenient101 reads out as `HTTP/1.x 101 ...` CRLF header lines CRLF CRLF with
+// nothing after the first empty line, and returns the accept values.
+func lenient101(out []byte) (accept []string, ok bool) {
+	end := bytes.Index(out, []byte("\r\n\r\n"))
+	if end < 0 || end+4 != len(out) {
+		return nil, false
+	}
+	lines := strings.Split(string(out[:end]), "\r\n")
+	f := strings.SplitN(lines[0], " ", 3)
+	if len(f) < 2 || !strings.HasPrefix(f[0], "HTTP/1.") || f[1] != "101" {
+		return nil, false
+	}
+	for _, l := range lines[1:] {
+		c := strings.IndexByte(l, ':')
+		if c <= 0 {
+			return nil, false
+		}
+		if asciiFoldEq(l[:c], "Sec-WebSocket-Accept") {
+			accept = append(accept, reqgen.TrimBlanks(l[c+1:]))
+		}
+	}
+	return accept, true
+}
+
 func fuzzConfig(kind reqgen.Kind, data []byte) *reqgen.Config {
 	sel := 0
 	for _, b := range data {
@@ -883,11 +1015,26 @@ func fuzzInvariants(data []byte) string {
 			}
 			return ""
 		}
+		var acc []string
 		p, err := parseResponse(o.out)
-		if err != nil || p.status != 101 || len(p.rest)+len(p.body) != 0 {
-			return fmt.Sprintf("%s: success reported but the bytes written are not exactly one 101 response (%v): %q", who, err, o.out)
+		switch {
+		case err == nil && (p.status != 101 || len(p.rest)+len(p.body) != 0):
+			return fmt.Sprintf("%s: success reported but the bytes written are not exactly one 101 response: %q", who, o.out)
+		case err == nil:
+			acc = p.hdr.Values("Sec-Websocket-Accept")
+		case hasControlByte(data):
+			// An accepted extension echoes the client's parameters; a control
+			// byte inside a quoted parameter value comes back escaped by
+			// httphead's writer, which net/http refuses to read. That is the
+			// open class "quoted/escaped option values" of a dependency: fall
+			// back to a line-level reading of the 101 head.
+			var ok bool
+			if acc, ok = lenient101(o.out); !ok {
+				return fmt.Sprintf("%s: success reported but the bytes written are not exactly one 101 response head: %q", who, o.out)
+			}
+		default:
+			return fmt.Sprintf("%s: success reported but the bytes written do not parse as an HTTP response (%v): %q", who, err, o.out)
 		}
-		acc := p.hdr.Values("Sec-Websocket-Accept")
 		for _, k := range keys {
 			if len(acc) == 1 && reqgen.AcceptKey(k) == acc[0] {
 				return ""
@@ -978,6 +1125,8 @@ func fuzzSeeds() [][]byte {
 	add(v.Clone().Set(reqgen.NameConnection, "keep-alive,\tUpgrade"))
 	add(v.Clone().Add(reqgen.NameKey, "AAAAAAAAAAAAAAAAAAAAAA=="))
 	add(v.Clone().Add(reqgen.NameExtensions, "x-a; p=\"a\\\"b\", x-b"))
+	// found by the native fuzzer: a control byte inside a quoted extension parameter is echoed (escaped) into the 101
+	out = append(out, []byte("GET 0 HTTP/1.10\nHost:0\nUpgrade: weBsocket \nConneCtion:Upgrade\nSeC-WebSoCket-Version: 13\nSeC-WeBSoCket-KeY:100012020120101000002000\nSeC-WeBSoCket-EXtensions: x-a;0=\"\b1\"0\n\n"))
 	out = append(out, v.Render()[:60], []byte("GET / HTTP/1.1\r\n\r\n"), []byte("\r\n\r\n"), nil)
 	return out
 }
